@@ -310,7 +310,10 @@ def gen_server_plan(rng, prof=None):
             handler_faults.append({
                 'event': rng.choice(['message', 'message', 'disconnect']),
                 'c': c, 'action': act,
-                's': rng.choice([0.25, 0.5, 1.0]), 'data': 'reentrant-%d' % c})
+                's': rng.choice([0.25, 0.5, 1.0]), 'data': 'reentrant-%d' % c,
+                'exc': rng.choice(['RuntimeError', 'RuntimeError',
+                                   'TypeError', 'TypeError', 'KeyError',
+                                   'OSError'])})
         t_last = max(t_last, s['t_open'] + span)
     if rng.random() < p['p_disconnect_all']:
         app.append({'t': ticks(rng, 0.5, span), 'op': 'disconnect_all'})
